@@ -161,7 +161,7 @@ theorem rvb_mult_early_exit_1_agree (m : Rat) :
 
 theorem rvb_mult_early_exit_2_agree : Gen.rvb_mult_early_exit_2 = Gen.rvb_mult_early_exit_1 := rfl
 
-/-- Rvb.lean `Sweep.stepOp` tests exactly the translated early-exit condition -/
+/-- the condition Rvb.lean's `Sweep.stepOp` tests on the running product (`s.mult < f64eps`) is the translated early-exit condition -/
 theorem rvb_mult_early_exit_agree_sweep (m : Rat) :
     (Gen.rvb_mult_early_exit_1 m).isSome = decide (m < Rvb.f64eps) := by
   rw [rvb_mult_early_exit_1_agree]
@@ -215,6 +215,11 @@ theorem rvb_push_adjacent_agree (w : Rvb.WBM) (var p : Nat) (weight : Rat)
   unfold Rvb.WBM.pushAdjacent Gen.rvb_push_new_weight
   simp only [List.getD_eq_getElem?_getD] at h
   simp [h]
+
+/-- the hypothesis holds e.g. for the empty manager (nothing popped yet) -/
+example : (({} : Rvb.WBM).pushAdjacent 3 (some 0) 1).flips =
+    (BC.empty.insert 0 (Gen.rvb_push_new_weight (BC.empty.getWeight 0) 1)).1 :=
+  rvb_push_adjacent_agree {} 3 0 1 (by decide)
 
 /-- … and for a no-flip cell -/
 theorem rvb_push_adjacent_agree_noflip (w : Rvb.WBM) (var : Nat) (weight : Rat)
